@@ -11,18 +11,40 @@ def rbits(rng, n):
     return bin(rng.getrandbits(n) | (1 << n))[3:] if n else ''
 
 
-def currency(grams):
-    return enc_coins(grams) + '0'  # no extra currencies
+def currency(grams, extra=None):
+    """CurrencyCollection bits when there are no extra currencies; with `extra` ({currency id: amount}, non-empty)
+    returns (bits, (dictionary cell,)): other:ExtraCurrencyCollection = HashmapE 32 (VarUInteger 32)."""
+    if not extra:
+        return enc_coins(grams) + '0'
+    d = hashmap.build_hashmap({k: v for k, v in extra.items()}, 32, lambda v: (enc_var_uint(v, 5), ()))
+    return enc_coins(grams) + '1', (d,)
 
 
-def make_account(rng, wc, account_id):
+def _rand_extra(rng):
+    return {rng.choice([1, 2, 239, 2 ** 31, 2 ** 32 - 1, rng.getrandbits(32)]): rng.choice([1, 255, 256, rng.getrandbits(64) + 1]) for _ in range(rng.choice([1, 1, 2, 5]))}
+
+
+def _add_extra(a, b):
+    out = dict(a)
+    for k, v in b.items():
+        out[k] = out.get(k, 0) + v
+    return out
+
+
+def make_account(rng, wc, account_id, extra_currencies=False):
     """account$1 addr storage_stat storage  (uninit / frozen / active with code+data)."""
     bits = '1' + enc_addr_std(wc, account_id)
     bits += enc_var_uint(rng.randint(1, 50), 3) + enc_var_uint(rng.randint(1, 5000), 3) + enc_var_uint(0, 3)   # StorageUsed
     bits += enc_uint(rng.getrandbits(32), 32) + '0'                                                           # last_paid, due_payment nothing
-    bits += enc_uint(rng.getrandbits(48), 64) + currency(rng.getrandbits(40))                                 # last_trans_lt, balance
-    kind = rng.choice(['uninit', 'frozen', 'active', 'active'])
+    bits += enc_uint(rng.getrandbits(48), 64)                                                                   # last_trans_lt
     refs = []
+    if extra_currencies and rng.random() < 0.5:
+        cb, refs0 = currency(rng.getrandbits(40), _rand_extra(rng))                                             # balance with extra currencies: its dictionary is the FIRST reference
+        bits += cb
+        refs = list(refs0)
+    else:
+        bits += currency(rng.getrandbits(40))
+    kind = rng.choice(['uninit', 'frozen', 'active', 'active'])
     if kind == 'uninit':
         bits += '00'
     elif kind == 'frozen':
@@ -31,25 +53,38 @@ def make_account(rng, wc, account_id):
         code = RCell(rbits(rng, rng.choice([8, 80, 500])), [RCell(rbits(rng, 64))] if rng.random() < 0.5 else [])
         data = RCell(rbits(rng, rng.choice([0, 32, 321])), [RCell(rbits(rng, 100), [RCell(rbits(rng, 9))])] if rng.random() < 0.5 else [])
         bits += '1' + '0' + '0' + '1' + '1' + '0'   # no split_depth, no special, code, data, no library
-        refs = [code, data]
+        refs = refs + [code, data]
     return RCell(bits, refs)
 
 
-def make_shard_state(rng, accounts, wc=0):
-    """accounts: {int key: Account RCell}.  Returns the ShardStateUnsplit root."""
+def make_shard_state(rng, accounts, wc=0, extra_currencies=False):
+    """accounts: {int key: Account RCell}.  Returns the ShardStateUnsplit root.
+    extra_currencies: some leaves carry a non-empty ExtraCurrencyCollection in their DepthBalanceInfo, so the leaf cell
+    holds the extra dictionary BEFORE the account reference, and every fork above it holds the summed dictionary as its
+    third reference (ahmn_fork left:^ right:^ extra:Y)."""
     def leaf(acc):
         bal = rng.getrandbits(30)
-        extra = enc_uint(0, 5) + currency(bal)
+        xc = _rand_extra(rng) if extra_currencies and rng.random() < 0.5 else {}
         val = rbits(rng, 256) + enc_uint(rng.getrandbits(40), 64)
-        return extra + val, (acc,), bal
+        if xc:
+            cb, crefs = currency(bal, xc)
+            return enc_uint(0, 5) + cb + val, tuple(crefs) + (acc,), (bal, xc)
+        return enc_uint(0, 5) + currency(bal) + val, (acc,), (bal, xc)
 
     def fork_extra(l, r):
-        s = l + r
-        return s, enc_uint(0, 5) + currency(s)
+        s = (l[0] + r[0], _add_extra(l[1], r[1]))
+        if s[1]:
+            cb, crefs = currency(s[0], s[1])
+            return s, enc_uint(0, 5) + cb, tuple(crefs)
+        return s, enc_uint(0, 5) + currency(s[0])
     if accounts:
         items = {bin(k)[2:].zfill(256): v for k, v in accounts.items()}
         root, total = hashmap.build_edge(items, 256, leaf, fork_extra)
-        acc_cell = RCell('1' + enc_uint(0, 5) + currency(total), (root,))
+        if total[1]:
+            cb, crefs = currency(total[0], total[1])
+            acc_cell = RCell('1' + enc_uint(0, 5) + cb, (root,) + tuple(crefs))
+        else:
+            acc_cell = RCell('1' + enc_uint(0, 5) + currency(total[0]), (root,))
     else:
         acc_cell = RCell('0' + enc_uint(0, 5) + currency(0))
     bits = '9023afe2'
@@ -187,7 +222,17 @@ def prune_paths(root, paths):
     return rebuild(root, edits)
 
 
-def account_path(state_root, key):
+def leaf_account_index(leaf_cell, pos):
+    """Index of the account reference in a ShardAccounts leaf: DepthBalanceInfo (5 bits, Grams, Maybe ^dict) comes first and
+    owns the first reference when extra currencies are present.  pos = bit position after the label."""
+    bits = leaf_cell.bits
+    pos += 5
+    n = int(bits[pos:pos + 4], 2)
+    pos += 4 + 8 * n
+    return 1 if bits[pos] == '1' else 0
+
+
+def account_path(state_root, key, to_account=False):
     """Path of ref indices from the state root to the ShardAccount leaf cell of `key` (256-bit int)."""
     path = (1, 0)
     acc_cell = state_root.refs[1]
@@ -204,7 +249,7 @@ def account_path(state_root, key):
         pos_key += len(label)
         n -= len(label)
         if n == 0:
-            return path
+            return path + (leaf_account_index(cell, pos),) if to_account else path
         b = int(kb[pos_key])
         path = path + (b,)
         cell = cell.refs[b]
@@ -267,7 +312,7 @@ def find_account_cell(state_root, key):
             pk += len(label)
             n -= len(label)
             if n == 0:
-                return cell.refs[0]
+                return cell.refs[leaf_account_index(cell, pos)]
             b = int(kb[pk])
             cell = cell.refs[b]
             pk += 1
